@@ -170,7 +170,9 @@ class Gen15:
                 return var(r.choice(bs))
             if x < 0.68:
                 return cst(self.val(ty))
-            if x < 0.74:
+            if x < 0.74 and not self.transforms:
+                # a program with let-transforms is explained from the recording only, where a
+                # wildcard in a body atom is known finding N83
                 self.feats.add("wild")
                 return ["wild"]
             return var(fresh(ty))
